@@ -133,7 +133,7 @@ fn crowd_probe(cfg: &Cfg, vecs: &[Vector]) {
             }
         }
     }
-    if let Some(what) = crowd_difference(cfg, v.addr, &v.lines, n) {
+    if let Some(what) = crate::run::with_wedge_limit(180_000, || crowd_difference(cfg, v.addr, &v.lines, n)) {
         let mut g = CROWD.lock().unwrap();
         if g.len() < 16 {
             g.push(CrowdFinding { opts: cfg.opts.clone(), addr: v.addr, lines: v.lines.clone(), n, what });
